@@ -41,7 +41,7 @@ def shards(tier, seed):
     out = []
     for link in LINKS:
         for (Dx, Dy, Da, Dk) in SHAPES:
-            for vi in ([0, 100] if tier == "quick" else [0, 1, 100, 101]):
+            for vi in ([0, 100] if tier == "quick" else [0, 1, 100, 101, 102, 103, 104, 105]):
                 out.append(dict(id="C17/%s/Dx%d.Dy%d.Da%d.Dk%d/v%d" % (link, Dx, Dy, Da, Dk, vi), link=link, Dx=Dx, Dy=Dy, Da=Da, Dk=Dk, vi=vi, cost=(6 if link == "ReLU" else 1) * Dx, facts=dict(link=link, Dx=Dx, Dy=Dy, Da=Da, Dk=Dk)))
     return out
 
